@@ -382,6 +382,12 @@ def _identity(it):
             for i in range(4)]
 
 
+def _nz(reads):
+    """readings compared modulo blanks: C16 is about which container changed, not about the
+    spacing of the canonical text (that is C08's subject; values here contain no blanks)"""
+    return None if reads is None else [t.replace(" ", "") if isinstance(t, str) else t for t in reads]
+
+
 def run_case(case, limit=0.5):
     """case: {"build": src, "init_want": [...], "steps": [{"src", "want", "op", "part"}]}
     -> {"viol": (key, what) | None, "drift": [(kind, sample)], "evals": n}"""
@@ -393,7 +399,7 @@ def run_case(case, limit=0.5):
     if o[0] != "val":
         raise MachineryError(f"initial alias graph could not be built: {case['build']} -> {o[:2]}")
     got = _read(it)
-    if got != case["init_want"]:
+    if _nz(got) != _nz(case["init_want"]):
         raise MachineryError(f"initial alias graph reads {got}, model {case['init_want']}: {case['build']}")
     prog = []
     for k, step in enumerate(case["steps"]):
@@ -412,10 +418,10 @@ def run_case(case, limit=0.5):
                                  {"program": key, "outcome": [str(z)[:100] for z in o[:3]]}))
             return res
         got = _read(it)
-        if got != step["want"]:
+        if _nz(got) != _nz(step["want"]):
             diff = [f"{n}: reads {g}, model {w}" for n, g, w in
                     zip(("a", "b(param)", "outer[0]", "c(closure)"), got or [None] * 4, step["want"])
-                    if g != w]
+                    if _nz([g]) != _nz([w])]
             cat = "mutator-effect" if step["op"] in MUTATOR_OPS else "non-mutating-effect"
             res["viol"] = (key, f"{cat}: after `{step['src']}` ({step['op']}) " + "; ".join(diff))
             return res
